@@ -161,7 +161,10 @@ def replay(tid, cons, styles_by_rank, rounds, rng, variant_override=None):
                 for c in cons:
                     # a Contest object may have served an earlier draw (another seed, another card list, a restored
                     # audit): until it has cards of its own in this audit its threshold is whatever that left behind
-                    if sizes[c] > 0 and last_sizes.get(c, 0) == 0 and stale_thr.get(c) is not None:
+                    # (only ahead of a from-scratch draw, which writes the threshold of every contest that gets cards;
+                    # a continuation takes thresholds as part of the state it continues from)
+                    if sizes[c] > 0 and last_sizes.get(c, 0) == 0 and stale_thr.get(c) is not None \
+                            and (variant == "redraw" or prev is None):
                         contests[c].sample_threshold = stale_thr[c]
                     contests[c].sample_size = sizes[c]
                     contests_alt[c].sample_size = sizes[c]
